@@ -76,6 +76,7 @@ void h_request_module() {
   g_def2.first_index = vin_f2; g_def2.next_index = vin_f2 + vin_n2; g_def2.num_unique_names = 0; g_def2.database_filename = 0;
   g_db.request_module(&g_def1);
   g_db.request_module(&g_def2);
+  __CPROVER_assume(!g_db._modules._trunc);        // (the model's vector capacity is not exceeded: two modules)
   if (vin_n1 > 0) OBL(g_def1.first_index == vin_next && g_def1.next_index == vin_next + vin_n1, "C13.request_module: a module with indices gets the range [next_index, next_index + n)");
   if (vin_n2 > 0) OBL(g_def2.first_index == vin_next + (vin_n1 > 0 ? vin_n1 : 0) && g_def2.next_index == g_def2.first_index + vin_n2, "C13.request_module: successive modules get contiguous, disjoint ranges");
   OBL(g_db._next_index == vin_next + (vin_n1 > 0 ? vin_n1 : 0) + (vin_n2 > 0 ? vin_n2 : 0), "C13.request_module: next_index advances by the indices handed out");
